@@ -216,7 +216,7 @@ verif_harness! {
 // conversions); the result must be the standard's D over the encryption round keys.  Assumed: the eight instances of the
 // linearity of L^-1 that the pre-transformed keys rely on (kz_common::lin_instances, lemma kuz_lin_linv).
 
-//@ harness name=kuz_sse2_dec_rk_val prop=C07,C03,C12,C20 tier=thorough bits=1408 stub=1 quick=C03 est=255 need=6 desc="W: KuznyechikDec::from(enc) (by value, real inv_enc_keys) over arbitrary encryption round keys: decrypt_block == oracle D = X[K1] S^-1 L^-1 X[K2] ... S^-1 L^-1 X[K10], all round keys, all blocks (linearity instances of L^-1 assumed, lemma kuz_lin_linv)"
+//@ harness name=kuz_sse2_dec_rk_val prop=C07,C03,C12,C20 tier=quick bits=1408 stub=1 quick=C03 est=255 need=6 desc="W: KuznyechikDec::from(enc) (by value, real inv_enc_keys) over arbitrary encryption round keys: decrypt_block == oracle D = X[K1] S^-1 L^-1 X[K2] ... S^-1 L^-1 X[K10], all round keys, all blocks (linearity instances of L^-1 assumed, lemma kuz_lin_linv)"
 verif_harness! {
     name: kuz_sse2_dec_rk_val,
     bytes: 160 + 16,
